@@ -39,6 +39,7 @@ class World:
         self.partners = {}               # atom name -> (partner atom name, logdet atom name, sign)
         self.assumed_pd = []
         self.counter = itertools.count()
+        self.map_sort = {}               # index-map name -> sort of the axis it indexes into
 
     def count(self, op):
         self.ops[op] = self.ops.get(op, 0) + 1
@@ -606,7 +607,9 @@ class IndexArr:
             return self
         m = {}
         ax = self.axis.fresh(m)
-        return IndexArr("map", ax, [K.isub(t, m) for t in self.terms], name=self.name)
+        r = IndexArr("map", ax, [K.isub(t, m) for t in self.terms], name=self.name)
+        r.zero = getattr(self, "zero", False)
+        return r
 
 
 def index_map(name, new_sort, n_src_comps=1):
@@ -717,13 +720,20 @@ def _index_axis(arr, ax, k):
         if isinstance(axis, DSum):
             raise ShimUnsupported("index map on a block axis")
         if axis.unit:
-            # all indices must be 0 (in range): size becomes that of the index array, value independent of it
+            # only index 0 is in range on an axis of size 1; an arbitrary index map addresses other components,
+            # where jnp.take fills with NaN
+            if not getattr(k, "zero", False):
+                raise ShapeError("index map into an axis of size 1: out-of-range entries (jnp.take fills NaN) -- "
+                                 "the object is not a batch with one entry per component")
             axes = list(arr.axes)
             axes[ax] = k.axis
             return SymArr(axes, arr.blocks), "kept"
         if len(k.terms) != len(axis.comps):
             raise ShimUnsupported("index map arity does not match the product axis")
         m = dict(zip(axis.comps, k.terms))
+        for c_, t_ in zip(axis.comps, k.terms):
+            if K.is_app(t_):
+                W.map_sort[t_[1]] = c_.sort
         axes = list(arr.axes)
         axes[ax] = k.axis
         return SymArr(axes, {key: K.subst(e, m) for key, e in arr.blocks.items()}), "kept"
@@ -879,6 +889,7 @@ def _scatter_set(arr, idx, value):
     m = {}
     if not vax.unit:
         m[vax.comps[0]] = K.app(f"src.{name}", r)
+        W.map_sort[f"src.{name}"] = vax.comps[0].sort
     # remaining axes must match
     for a, b in zip(arr.axes[1:], value.axes[1:]):
         if not _same_struct(a, b):
